@@ -32,6 +32,8 @@ def rawtype_jobs(prop, T, names=None, **kw):
     for (tid, bits, fl, repl, mn, mx, div, fb) in RAWTYPES:
         if not T and tid not in (names or QUICK_RAW):
             continue
+        if tid == 'BCD4':
+            continue   # four /100 digit rounds over a 32-bit value: no verdict within the 1500 s cap on a loaded machine (thorough run of session 3); BCD:4 is outside the claim, BCD, BCD:2, BCD:3, HCD:4 are decided
         d = {'T_BITS': bits, 'T_FLAGS': fl, 'T_REPL': '%du' % repl, 'T_MIN': '%du' % mn, 'T_MAX': '%du' % mx, 'T_DIV': '(%d)' % div}
         if fb >= 0:
             d['T_FIRSTBIT'] = fb
@@ -391,13 +393,13 @@ META = {
  'C05': dict(
    level_text='Bounded model checking of the real decode kernels. Numeric: for every byte pattern of every checked built-in type (all 1..4 byte integer, fixed-point, BCD/HCD, weekday and bit types incl. big-endian variants) the raw decode (readRawValue / getFloatFromRawValue) equals an independent reference (endianness, digit validity, bit range), the replacement pattern decodes to null, out-of-range raws are rejected, and the numeric value equals sign/divisor semantics of the type definition. Date/time: the real DateTimeDataType::readSymbols (text rendered through the stream model) for BDA, BDA:3, BDZ, HDA, HDA:3, BTI, HTI, VTI, BTM, HTM, VTM (quick: 5 of them) on every byte pattern without replacement bytes against an independent decode (digit validity, day/month/hour/minute ranges, 24:00 rule, component order); DAY: every day count in the checked ranges (thorough: all 65536) against the civil calendar (known finding KF-C05-DAY1900 for counts 0..58).',
    level_note='Trusted: clang-14 lowering, ll2c, CBMC float encoding, models/sstream.c for the date/time texts. Numeric text rendering (digits of numbers through iostreams) is outside: numeric claims are at raw-value level. Outside as well: string/hex types (their text is covered for stream-state independence only, C12), EXP/KNX floats, MIN/TTM/TTH/TTQ time types, DTM, value lists, JSON output of numeric types, partial-null dates, DataFieldSet layout across several fields.',
-   outside_claim='numeric text output formats, string/hex type decoding, EXP/KNX float types, MIN/TTx/DTM types, value lists, multi-field layout, float exactness for |raw| >= 2^24',
+   outside_claim='BCD:4 (no verdict within the cap), numeric text output formats, string/hex type decoding, EXP/KNX float types, MIN/TTx/DTM types, value lists, multi-field layout, float exactness for |raw| >= 2^24',
    assumptions=COMMON_ASSUME,
  ),
  'C06': dict(
    level_text='Bounded model checking of encode-inverts-decode. Raw level: for every decodable byte pattern of every checked numeric/BCD/HCD/bit/weekday type, writeRawValue(readRawValue(bytes)) reproduces the bits the field owns (canonical replacement for null) and succeeds. Value level: for every in-range raw value of every integer type and every type with a decimal or negative divisor, the text ebusd prints for it (sv, sv*|div|, or sv/10^k with exactly k digits) is accepted by the real NumberDataType::parseInput and yields the same raw value (strtol/strtoul/strtod modelled by their contract on that text).',
    level_note='Trusted: clang-14 lowering, ll2c, CBMC float encoding, the libc contract stubs of C07_parse.cpp. Outside: digit rendering itself (num_put), divisors that are not powers of ten at value level (D2B/D2C/D1C are covered at raw level only), date/time/string/hex types, value lists, the converse direction (encode-decode-encode fixed point from arbitrary user texts), EXP/KNX floats.',
-   outside_claim='date/time/string/hex types, value lists, non-decimal divisors at text level, encode-decode-encode from arbitrary texts, EXP/KNX float types',
+   outside_claim='BCD:4 (no verdict within the cap), date/time/string/hex types, value lists, non-decimal divisors at text level, encode-decode-encode from arbitrary texts, EXP/KNX float types',
    assumptions=COMMON_ASSUME,
  ),
  'C10': dict(
